@@ -140,6 +140,56 @@ static Path64 gen_free(Rng& r, int nv) {       // arbitrary integer vertices (no
   }
   return p;
 }
+// "band" family: a thick polyline (band) wrapped round 2-4 consecutive sides of the rectangle, OUTSIDE it: the inner boundary runs on the
+// side lines (offset 0) or 1-3 units off them, the outer boundary 1-6 units further out, caps perpendicular to the first / last side,
+// optional jog in the outer boundary, optional one-unit slant of outer vertices; 6-12 vertices, both orientations, any start vertex.
+// (Simple polygons that run along several sides and return outside the rectangle: class C08-S1 of known_findings.json was found here.)
+static URect g_band_rect = {8, 8, 24, 24};
+static Path64 gen_band(Rng& r) {
+  const URect& u = g_band_rect;
+  int k = (int)r.range(2, 4), s0 = (int)r.range(0, 3);
+  int64_t a[4], w[4];
+  for (int i = 0; i < 4; ++i) { a[i] = r.range(0, 1) ? 0 : r.range(0, 3); w[i] = r.range(1, 6); }
+  auto box = [&](const int64_t* off, int64_t* o) { o[0] = u.l - off[0]; o[1] = u.t - off[1]; o[2] = u.r + off[2]; o[3] = u.b + off[3]; };
+  int64_t in[4], oo[4], out[4]; for (int i = 0; i < 4; ++i) oo[i] = a[i] + w[i];
+  box(a, in); box(oo, out);
+  auto corner = [&](const int64_t* bx, int side) {   // corner between `side` and the next one clockwise (Left, Top, Right, Bottom)
+    switch (side & 3) { case 0: return Point64(bx[0], bx[1]); case 1: return Point64(bx[2], bx[1]); case 2: return Point64(bx[2], bx[3]); default: return Point64(bx[0], bx[3]); } };
+  auto on_side = [&](const int64_t* bx, int side, int64_t pos) {  // point of the (offset) line of `side` at coordinate pos
+    switch (side & 3) { case 0: return Point64(bx[0], pos); case 1: return Point64(pos, bx[1]); case 2: return Point64(bx[2], pos); default: return Point64(pos, bx[3]); } };
+  auto pick_pos = [&](int side) { bool horz = (side & 1) == 1; int64_t lo = horz ? u.l : u.t, hi = horz ? u.r : u.b;
+    switch (r.range(0, 3)) { case 0: return lo; case 1: return hi; case 2: return r.range(lo - 1, hi + 1); default: return r.range(lo, hi); } };
+  int sl = (s0 + k - 1) & 3;
+  int64_t p0 = pick_pos(s0), pe = pick_pos(sl);
+  Path64 inner, outer;
+  inner.push_back(on_side(in, s0, p0)); outer.push_back(on_side(out, s0, p0));
+  for (int i = 0; i + 1 < k; ++i) { inner.push_back(corner(in, s0 + i)); outer.push_back(corner(out, s0 + i)); }
+  inner.push_back(on_side(in, sl, pe)); outer.push_back(on_side(out, sl, pe));
+  if (r.range(0, 3) == 0) {      // bulge: the inner boundary only TOUCHES the corners (mid points pushed outward), no edge along a side
+    Path64 in2; in2.push_back(inner[0]);
+    for (int i = 0; i + 1 < (int)inner.size(); ++i) {
+      int side = (s0 + i) & 3; int64_t d = w[side] >= 2 ? r.range(1, std::min<int64_t>(3, w[side] - 1)) : 0;
+      Point64 m((inner[i].x + inner[i + 1].x) / 2, (inner[i].y + inner[i + 1].y) / 2);
+      if (side == 0) m.x -= d; else if (side == 1) m.y -= d; else if (side == 2) m.x += d; else m.y += d;
+      if (d > 0 && !(m == inner[i]) && !(m == inner[i + 1])) in2.push_back(m);
+      in2.push_back(inner[i + 1]);
+    }
+    inner = in2;
+  }
+  if (r.range(0, 2) == 0) {      // jog in the outer boundary on its first or last side: the cap end moves 1-3 units towards the inner boundary
+    bool first = r.coin(); int side = first ? s0 : sl; bool horz = (side & 1) == 1;
+    int64_t lo = horz ? u.l : u.t, hi = horz ? u.r : u.b, jp = r.range(lo, hi);
+    int64_t off2[4]; for (int i = 0; i < 4; ++i) off2[i] = oo[i]; off2[side] = a[side] + std::max<int64_t>(1, w[side] - r.range(1, 3));
+    int64_t b2[4]; box(off2, b2);
+    if (first) { outer[0] = on_side(b2, side, p0); outer.insert(outer.begin() + 1, on_side(b2, side, jp)); outer.insert(outer.begin() + 2, on_side(out, side, jp)); }
+    else { outer.back() = on_side(b2, side, pe); size_t n = outer.size(); outer.insert(outer.begin() + (n - 1), on_side(out, side, jp)); outer.insert(outer.begin() + n, on_side(b2, side, jp)); }
+  }
+  if (r.range(0, 3) == 0) for (auto& q : outer) if (r.range(0, 2) == 0) { q.x += r.range(-1, 1); q.y += r.range(-1, 1); }
+  Path64 p = inner; for (size_t i = outer.size(); i-- > 0;) p.push_back(outer[i]);
+  if (r.coin()) std::reverse(p.begin(), p.end());
+  std::rotate(p.begin(), p.begin() + (size_t)r.range(0, (int64_t)p.size() - 1), p.end());
+  return p;
+}
 static Path64 gen_rand(Rng& r, int nv) { Path64 p; for (int k = 0; k < nv; ++k) p.emplace_back(8 * r.range(0, 4), 8 * r.range(0, 4)); return p; }
 
 typedef std::function<void(const Path64&)> PathSink;
@@ -161,6 +211,8 @@ static void gen_family(const Args& a, Rng& r, bool closed, const PathSink& sink)
     for (long long i = 0; i < n; ++i) sink(gen_rand(r, (int)r.range(nvlo, nvhi)));
   } else if (fam == "free") {
     for (long long i = 0; i < n; ++i) sink(gen_free(r, (int)r.range(nvlo, nvhi)));
+  } else if (fam == "band") {
+    for (long long i = 0; i < n; ++i) sink(gen_band(r));
   } else if (fam == "orbit") {
     for (long long i = 0; i < n; ++i) sink(gen_orbit(r, (int)r.range(nvlo, std::max(nvhi, nvlo))));
   } else { fprintf(stderr, "unknown --fam %s\n", fam.c_str()); exit(2); }
@@ -170,7 +222,7 @@ static void gen_family(const Args& a, Rng& r, bool closed, const PathSink& sink)
 // vh rc --fam in|all|samp|rand|orbit --emb E --rect R --batch K --seed S [--in f --nv N --n N --skip k --stride s] --out f
 static int cmd_rc(const Args& a) {
   Rng r((uint64_t)argi(a, "seed", 1));
-  RcCtx c = make_ctx((int)argi(a, "emb", 0), (int)argi(a, "rect", 0));
+  RcCtx c = make_ctx((int)argi(a, "emb", 0), (int)argi(a, "rect", 0)); g_band_rect = c.ur;
   int K = (int)argi(a, "batch", 3);
   std::ofstream os(args(a, "out", "/dev/stdout"));
   os << fam_event(c, "rc", (int)argi(a, "rect", 0), true) << "\n";
@@ -209,7 +261,7 @@ static Reg reg_rc("rc", cmd_rc);
 // ------------------------------------------------------------------ C09: RectClipLines
 static int cmd_rcl(const Args& a) {
   Rng r((uint64_t)argi(a, "seed", 1));
-  RcCtx c = make_ctx((int)argi(a, "emb", 0), (int)argi(a, "rect", 0));
+  RcCtx c = make_ctx((int)argi(a, "emb", 0), (int)argi(a, "rect", 0)); g_band_rect = c.ur;
   int K = (int)argi(a, "batch", 3);
   std::ofstream os(args(a, "out", "/dev/stdout"));
   os << fam_event(c, "rcl", (int)argi(a, "rect", 0), false) << "\n";
